@@ -15,6 +15,7 @@ fn main() {
 			Some(c) => {
 				let r = hlv_harness::interp::run_case(&c);
 				writeln!(out, "{}", r.transcript).unwrap();
+				out.flush().unwrap();
 			}
 			None => writeln!(out, "?;parse-error;{line}").unwrap(),
 		}
